@@ -69,10 +69,18 @@ type Logged struct {
 }
 
 // Server decides the outcome of a request: a status code, or 0 for "no
-// answer" (the client sees a transport error).
+// answer" (the client sees a transport error).  BodyCut + status: the status
+// line and the headers arrive, reading the body fails (connection cut).
 var Server func(url string, body []byte) int
 
 var Log []Logged
+
+const BodyCut = 1000
+
+type cutBody struct{}
+
+func (cutBody) Read([]byte) (int, error) { return 0, io.ErrUnexpectedEOF }
+func (cutBody) Close() error             { return nil }
 
 func Reset(server func(url string, body []byte) int) {
 	Server = server
@@ -89,9 +97,17 @@ func send(method, u, contentType string, data []byte, req *Request) (*Response, 
 	if Server != nil {
 		status = Server(u, data)
 	}
+	cut := status >= BodyCut
+	if cut {
+		status -= BodyCut
+	}
 	Log = append(Log, Logged{u, contentType, data, status})
 	if status == 0 {
 		return nil, errors.New("vhttp: no answer")
+	}
+	var body io.ReadCloser = io.NopCloser(strings.NewReader("ok\n"))
+	if cut {
+		body = cutBody{}
 	}
 	return &Response{
 		Status:     fmt.Sprintf("%d %s", status, http.StatusText(status)),
@@ -100,7 +116,7 @@ func send(method, u, contentType string, data []byte, req *Request) (*Response, 
 		ProtoMajor: 1,
 		ProtoMinor: 1,
 		Header:     Header{},
-		Body:       io.NopCloser(strings.NewReader("")),
+		Body:       body,
 		Request:    req,
 	}, nil
 }
